@@ -250,10 +250,12 @@ func (e *exec) Exec(op string) string {
 		e.open()
 		return "ok"
 	case "disk":
-		max := g.MaxIndex()
+		// the rotated files as the DIRECTORY shows them (highest numeric suffix + 1), not as the group counts them: this op is the
+		// monitors' ground truth for "completely on disk", so it must not depend on the index bookkeeping it is used to judge
+		max := diskMaxIndex(e.path)
 		var sizes, crcs []string
 		for i := 0; i < max; i++ {
-			b, err := os.ReadFile(e.filePath(i))
+			b, err := os.ReadFile(fmt.Sprintf("%s.%03d", e.path, i))
 			if err != nil {
 				sizes, crcs = append(sizes, "missing"), append(crcs, "missing")
 				continue
@@ -405,4 +407,23 @@ func Rle(b []byte) string {
 		segs = append(segs, hx.Hex(b[lit:]))
 	}
 	return strings.Join(segs, ",")
+}
+
+// diskMaxIndex: 1 + the highest numeric suffix among the files `<head>.<digits>` next to the head (0 if there is none).
+func diskMaxIndex(head string) int {
+	ents, err := os.ReadDir(filepath.Dir(head))
+	if err != nil {
+		return 0
+	}
+	max := 0
+	pre := filepath.Base(head) + "."
+	for _, en := range ents {
+		if !strings.HasPrefix(en.Name(), pre) {
+			continue
+		}
+		if k, err := strconv.Atoi(strings.TrimPrefix(en.Name(), pre)); err == nil && k+1 > max {
+			max = k + 1
+		}
+	}
+	return max
 }
